@@ -527,6 +527,11 @@ def literal_tokens(tier):
             for lead in (1, base - 1):
                 c.append(pre + digits(base, length, lead))
         c.append(pre + seps(digits(base, maxlen, 1), 3))
+        if base == 16:
+            c += [("0X" + digits(16, k, 10 + k % 6)).upper().replace("0X", "0X", 1) for k in (1, 2, 7, 14)]
+            c += ["0x" + digits(16, k, 15).upper() for k in (3, 9, 15)]
+        if base == 2:
+            c.append("0B" + digits(2, 17, 1))
     for _ in range(n):
         ip = digits(10, rnd.randint(1, 9), rnd.randint(1, 9))
         fp = digits(10, rnd.randint(1, 8), rnd.randint(0, 9)).rstrip("0") or "5"
@@ -674,9 +679,16 @@ def static_jobs(tier):
     return jobs
 
 
+# generous constant-evaluation limits: a constant that became slower to evaluate is judged by its value, not by the
+# compiler's default step limit
+CONSTEXPR_GCC = ("-fconstexpr-ops-limit=2000000000", "-fconstexpr-loop-limit=100000000", "-fconstexpr-depth=4096")
+CONSTEXPR_CLANG = ("-fconstexpr-steps=1000000000", "-fconstexpr-depth=4096")
+
+
 def math_jobs(tier):
-    jobs = [dict(src="h_math.cpp", cc="gcc", tag="math-gcc-%d" % k, defines=["MATH_SET=%d" % k]) for k in range(6)]
-    jobs.append(dict(src="h_math.cpp", cc="clang", tag="math-clang-%d" % (vlib.seed() % 3), defines=["MATH_SET=%d" % (vlib.seed() % 3)]))
+    jobs = [dict(src="h_math.cpp", cc="gcc", tag="math-gcc-%d" % k, defines=["MATH_SET=%d" % k], extra_flags=CONSTEXPR_GCC) for k in range(6)]
+    jobs.append(dict(src="h_math.cpp", cc="clang", tag="math-clang-%d" % (vlib.seed() % 3), defines=["MATH_SET=%d" % (vlib.seed() % 3)],
+                     extra_flags=CONSTEXPR_CLANG))
     return jobs
 
 
